@@ -24,7 +24,7 @@ def parseTables (a : List String) : Option Tables :=
         let l ← natList stsz
         some (⟨0, l.length, l⟩ : Stsz)
     let offs ← natList stco
-    let stssB ← if stss = "-" then some none else (natList stss).map some
+    let stssB ← if stss = "-" then some none else if stss = "e" then some (some []) else (natList stss).map some
     let sdtpB ← if sdtp = "-" then some none else (natList sdtp).map some
     some ⟨sttsB, cttsB, stscB, stszB, offs, stssB, sdtpB⟩
   | _ => none
